@@ -345,6 +345,22 @@ func (e *c03Env) exec(op map[string]interface{}) (line string) {
 		err := e.client.Delete(ctx, str("kid"))
 		e.sink("returns", err)
 		return "delete " + c03Err(err) + e.decoyFlags()
+	case "plant": // a key that did not come from New: saved through the backend's SPI (legacy key / import)
+		kp, gerr := spi.GenerateKeyPair()
+		if gerr != nil {
+			return "plant keygen-failed"
+		}
+		err := e.client.backend.SavePrivateKey(ctx, str("keyName"), kp)
+		e.sink("returns", err)
+		if err != nil {
+			c := c03Err(err)
+			if strings.Contains(err.Error(), "file exists") {
+				c = "err:key-exists"
+			}
+			return "plant " + c + e.decoyFlags()
+		}
+		e.harvestCanaries()
+		return fmt.Sprintf("plant ok key=K%d", e.pubIndex(kp.Public()))
 	case "migrate":
 		err := e.client.Migrate()
 		e.sink("returns", err)
@@ -822,8 +838,16 @@ func TestVerifC03(t *testing.T) {
 	}
 	for s := 0; s < nSeq; s++ {
 		emit(map[string]interface{}{"op": "reset"})
-		var names []string // key names the engine drew in this sequence
+		var names []string // key names the engine drew / that were planted in this sequence
 		pick := func(l []string) string { return l[r.Intn(len(l))] }
+		legacy := []string{"did:nuts:legacy#k1", "legacy key", "did:web:x%3A80:iam:u#0", "../escape", "..", "a/b", "k3"}
+		anyKid := func(extra ...string) string { // kids, aliases, and (Migrate makes them kids) key names
+			l := append(append([]string{}, kids...), extra...)
+			if len(names) > 0 && r.Intn(5) == 0 {
+				return pick(names)
+			}
+			return pick(l)
+		}
 		anyName := func() string {
 			if len(names) > 0 && r.Intn(3) != 0 {
 				return pick(names)
@@ -842,18 +866,23 @@ func TestVerifC03(t *testing.T) {
 				if n, _ := op["keyName"].(string); n != "" {
 					names = append(names, n)
 				}
+			case x < 22:
+				n := pick(legacy)
+				if emit(map[string]interface{}{"op": "plant", "keyName": n}) == "plant ok key=K"+strconv.Itoa(len(e.pubKeys)-1) {
+					names = append(names, n)
+				}
 			case x < 30:
-				k := pick(kids)
+				k := anyKid()
 				if r.Intn(3) == 0 {
 					k = "alias" + strconv.Itoa(r.Intn(3))
 				}
 				emit(map[string]interface{}{"op": "link", "kid": k, "keyName": anyName(), "version": pick([]string{"1", "1", "2", ""})})
 			case x < 40:
-				emit(map[string]interface{}{"op": "delete", "kid": pick(append(kids, "alias0", "alias1", "nobody"))})
+				emit(map[string]interface{}{"op": "delete", "kid": anyKid("alias0", "alias1", "nobody")})
 			case x < 62:
-				emit(map[string]interface{}{"op": "sign", "how": pick([]string{"jws", "jwt", "dpop"}), "kid": pick(append(kids, "alias0", "alias1", "alias2", "nobody"))})
+				emit(map[string]interface{}{"op": "sign", "how": pick([]string{"jws", "jwt", "dpop"}), "kid": anyKid("alias0", "alias1", "alias2", "nobody")})
 			case x < 70:
-				emit(map[string]interface{}{"op": "resolve", "kid": pick(append(kids, "alias0", "alias1", "nobody"))})
+				emit(map[string]interface{}{"op": "resolve", "kid": anyKid("alias0", "alias1", "nobody")})
 			case x < 74:
 				emit(map[string]interface{}{"op": "exists", "kid": pick(append(kids, "alias0", "nobody"))})
 			case x < 78:
@@ -875,7 +904,7 @@ func TestVerifC03(t *testing.T) {
 		emit(map[string]interface{}{"op": "list"})
 		emit(map[string]interface{}{"op": "files"})
 		// every kid ever used: who signs for it now
-		for _, k := range append(kids, "alias0", "alias1", "alias2") {
+		for _, k := range append(append([]string{}, kids...), append([]string{"alias0", "alias1", "alias2"}, names...)...) {
 			emit(map[string]interface{}{"op": "sign", "how": "jws", "kid": k})
 			emit(map[string]interface{}{"op": "resolve", "kid": k})
 		}
